@@ -185,6 +185,13 @@ func Gen(t *rapid.T) *Spec {
 		parent.add(e)
 	}
 
+	// streams named like the members relic's MSI-to-tar transform adds for its own use
+	if chance(t, "tarMetaNames", 4) {
+		stors[0].add(&Entry{Name: "__exmeta", Data: FillBytes(rapid.SampledFrom([]int{0, 37, 5000}).Draw(t, "exmetaSize"), rapid.Uint64().Draw(t, "exmetaSeed"))})
+		if rapid.Bool().Draw(t, "storageUIDName") {
+			stors[len(stors)-1].add(&Entry{Name: "__storage_uid", Data: FillBytes(16, rapid.Uint64().Draw(t, "uidSeed"))})
+		}
+	}
 	// pre-existing signature streams
 	if chance(t, "presigned", 25) {
 		sz := rapid.SampledFrom([]int{1, 1500, 4095, 4096, 6000}).Draw(t, "sigSize")
